@@ -24,7 +24,9 @@ PART 1 (deductive, ALL texts): DISPATCH ORDER relative to uninterpreted recognis
 PART 2 (BOUNDED stand-in, native enumeration on the real functions, never counted as proved): what the recognisers
   accept and the ROUND TRIP, against an INDEPENDENT reference converter written from the documentation (own
   character-level parsers, digits accumulated by hand, floats through exact Fractions) - see the second half of
-  this file; scope counts are computed at import and stated in levels.d/C17.json.
+  this file; it runs in the native harness only (replay `check` hook of the same contracts, on every literal of the
+  grammar), is reported as native evaluations and is never an obligation; scope counts are computed at import and
+  must equal the `scope` stated in levels.d/C17.json.
 NOT covered: parseDirect / parseNeedGoal and the verb contexts that choose which Convert2X is applied.
 """
 import collections as _collections
@@ -500,7 +502,7 @@ def _mk_text(x):
             return {"text": cex["params"]["text"]}
         lits = _literals()
         if i < len(lits):
-            return {"text": lits[i][0]}
+            return {"text": lits[i][0], "_family": lits[i][1], "_rt": lits[i][2], "_lit": True}
         n = rng.choice([1, 2, 2, 3, 3, 4, 5, 6, 8])
         return {"text": "".join(rng.choice(_JUNK) for _ in range(n))}
     return make
@@ -514,7 +516,8 @@ for _x in list(FUNCS) + ["StripQuotes"]:
     contract(F, _name(_x), P, params=dict(text=STR), returns=VAL, modifies=[], externals=EXT,
              ensures=_clauses(_x),
              raises={} if _x == "StripQuotes" else {"ValueError": ["c17_fails('%s', text)" % _x]},
-             replay=dict(make=_mk_text(_x), count=None),
+             replay=dict(make=_mk_text(_x), count=None,
+                         check=lambda env, nr, outcome, result, exc, _x=_x: _bounded_check(_x, env, outcome, result)),
              note="dispatch order of %s, all texts, recognisers uninterpreted" % _name(_x))
 
 # a non-text operand: int(x, 10) raises TypeError, which no handler of Convert2Num may swallow
@@ -811,21 +814,7 @@ def _scope():
             "families": fam, "functions": len(ORDER)}
 
 
-# ------------------------------------------------------------------ bounded contracts (native only, verify=False)
-@specfunc
-def c17_ref_result(E, x, text, result):
-    raise Unsupported("bounded stand-in: the reference converter has no symbolic counterpart")
-
-
-@specfunc
-def c17_ref_raises(E, x, text):
-    raise Unsupported("bounded stand-in: the reference converter has no symbolic counterpart")
-
-
-c17_ref_result.native = lambda x, text, result: _ref(x, text) != "ERR" and _n_pv(result) == _ref(x, text)
-c17_ref_raises.native = lambda x, text: _ref(x, text) == "ERR"
-
-
+# ------------------------------------------------------------------ the bounded checks (native only)
 def _same(result, kind, value):
     """value AND type given back (floats by repr: the sign of a zero counts)"""
     if kind in _PNAME:
@@ -835,38 +824,34 @@ def _same(result, kind, value):
     return type(result) is type(value) and _n_pv(result) == _n_pv(value)
 
 
-def _mk_lit(x):
-    def make(rng, i, cex, nr):
-        lits = _literals()
-        if i >= len(lits):
-            return None
-        return {"text": lits[i][0], "_family": lits[i][1], "_rt": lits[i][2]}
-
-    def check(env, nr, outcome, result, exc):
-        rt = env.get("_rt")
-        if rt is None or rt[0] not in ORDER[x]:
-            return []
-        if outcome != "return" or not _same(result, rt[0], rt[1]):
-            return ["round trip: %r is the literal form of %r (%s) but Convert2%s gives %s %r"
-                    % (env["text"], rt[1], rt[0], x, outcome, result)]
+def _bounded_check(x, env, outcome, result):
+    """BOUNDED stand-in, run by the native harness on every literal of the grammar (never on the junk texts, never
+    by the prover): (1) the real function against the independent reference converter, value and type;
+    (2) round trip of the literals that are the repr / documented form of a value"""
+    if not env.get("_lit"):
         return []
-    return make, check
+    text, msgs = env["text"], []
+    want = _ref(x, text)
+    got = _n_pv(result) if outcome == "return" else ("ERR" if outcome == "raise:ValueError" else outcome)
+    if got != want:
+        msgs.append("bounded: %s(%r) gives %r, the reference converter written from the documentation gives %r"
+                    % (_name(x), text, got, want))
+    rt = env.get("_rt")
+    if rt is not None and rt[0] in ORDER[x] and (outcome != "return" or not _same(result, rt[0], rt[1])):
+        msgs.append("bounded round trip: %r is the literal form of %r (%s) but %s gives %s %r"
+                    % (text, rt[1], rt[0], _name(x), outcome, result))
+    return msgs
 
 
 _SC = _scope()
-_BOUNDED_NOTE = ("BOUNDED stand-in (native enumeration on the real function, not a proof): %d literals of the grammar in "
-                 "contracts/c17_convert.py (%s), each converted by the real function and compared, value AND type, with "
-                 "an independent reference converter; %d of them are the repr / documented literal form of a value and "
-                 "must convert back to it wherever the function's documented order contains their kind"
+_BOUNDED_NOTE = ("C17 BOUNDED stand-in (native enumeration on the real functions, NOT a proof, never counted in "
+                 "obligations/discharged): %d literals of the grammar in contracts/c17_convert.py (%s), each converted by "
+                 "each of the %d real functions and compared, value AND type, with an independent reference converter "
+                 "written from the documentation; %d of them are the repr / documented literal form of a value and must "
+                 "convert back to it wherever the function's documented order contains their kind"
                  % (_SC["literals"], ", ".join("%s %d" % kv for kv in sorted(_SC["families"].items())),
-                    _SC["round_trip_literals"]))
-
-for _x in list(FUNCS) + ["StripQuotes"]:
-    _mk, _ck = _mk_lit(_x)
-    contract(F, _name(_x), P, params=dict(text=STR), returns=VAL, verify=False, note=_BOUNDED_NOTE,
-             ensures=["c17_ref_result('%s', text, result)" % _x],
-             raises={} if _x == "StripQuotes" else {"ValueError": ["c17_ref_raises('%s', text)" % _x]},
-             replay=dict(make=_mk, check=_ck, count=_SC["literals"]))
+                    len(ORDER), _SC["round_trip_literals"]))
+REG.assume_note(_BOUNDED_NOTE)
 
 # the verified contracts' native cross-check walks the same literals, then seeded junk
 for _cs in REG.contracts.values():
